@@ -678,3 +678,102 @@ theorem natIndex_inf (x : Float) (h : F64.isPosInf x) : natIndex x = some (2 ^ 6
   rw [h, subOneCast_inf]
 
 end Aplang
+
+namespace Aplang.FloatIndex
+open Float.Model Float.Model.UnpackedFloat
+
+/-! ## `Nat.toFloat` below `2^53` is exact -/
+
+/-- the unpacked float of `n.toFloat` for `n < 2^53` -/
+theorem toFloat_unpack (n : Nat) (hn : n < 2 ^ 53) :
+    (n.toFloat).toModel.unpack =
+      rt (UnpackedFloat.mul Format.binary64 (rt (normalize Format.binary64 (n : Int) 0 .positive)) one) := by
+  have h1 : n.toFloat = Float.ofScientific n false 0 := rfl
+  rw [h1]
+  unfold Float.ofScientific
+  have hc : n < 2 ^ 53 ∧ 0 ≤ 22 := ⟨hn, by decide⟩
+  simp only [hc, and_self, dite_true]
+  have hu : n.toUInt64.toNat = n := by
+    simp only [Nat.toUInt64, UInt64.toNat_ofNat']
+    apply Nat.mod_eq_of_lt
+    exact Nat.lt_trans hn (by decide)
+  have hone : (Float.exactlyRepresentablePowersOfTen[0]'(by decide)).toModel.unpack = one := by rfl
+  show Float.Model.unpack (Float.Model.pack (UnpackedFloat.mul Format.binary64
+      (Float.Model.unpack (Float.Model.pack (UnpackedFloat.ofUInt64 Format.binary64 n.toUInt64)))
+      (Float.exactlyRepresentablePowersOfTen[0]'(by decide)).toModel.unpack)) = _
+  rw [hone]
+  simp only [UnpackedFloat.ofUInt64, UnpackedFloat.ofNat, UnpackedFloat.ofInt, hu]
+  rfl
+
+theorem round_eq_rwa (M : Nat) (E : Int) (hL : 52 < M.log2) (hE : -1074 ≤ E) :
+    UnpackedFloat.round Format.binary64 .positive M E = roundWithAccuracy Format.binary64 .positive M E .exact := by
+  have ht := target_of_log2 M E M.log2 rfl (by omega)
+  unfold UnpackedFloat.round decreaseExponent
+  have hs : (E - (E + (M.log2 : Int) - 52)).toNat = 0 := by omega
+  have hz : E - ((0 : Nat) : Int) = E := by omega
+  simp only [ht, hs, Nat.shiftLeft_zero, hz]
+
+theorem mul_one (r : Nat) (E : Int) (h : 0 < r) :
+    UnpackedFloat.mul Format.binary64 (.finite .positive r E h) one =
+      roundWithAccuracy Format.binary64 .positive (r * 2 ^ 52) (E + -52) .exact := by
+  rfl
+
+theorem log2_mul_pow (r : Nat) (b1 : 2 ^ 52 ≤ r) (b2 : r < 2 ^ 53) : (r * 2 ^ 52).log2 = 104 := by
+  apply log2_eq_of_bounds
+  · have : 2 ^ 52 * 2 ^ 52 ≤ r * 2 ^ 52 := Nat.mul_le_mul_right _ b1
+    have e : (2 : Nat) ^ 104 = 2 ^ 52 * 2 ^ 52 := by decide
+    omega
+  · have : r * 2 ^ 52 < 2 ^ 53 * 2 ^ 52 := Nat.mul_lt_mul_of_pos_right b2 (by decide)
+    have e : (2 : Nat) ^ (104 + 1) = 2 ^ 53 * 2 ^ 52 := by decide
+    omega
+
+/-- multiplying a canonical float by 1.0 changes nothing -/
+theorem rt_mul_one (r : Nat) (E : Int) (h : 0 < r) (b1 : 2 ^ 52 ≤ r) (b2 : r < 2 ^ 53) (e1 : -1022 ≤ E) (e2 : E ≤ 971) :
+    rt (UnpackedFloat.mul Format.binary64 (.finite .positive r E h) one) = .finite .positive r E h := by
+  have hl := log2_mul_pow r b1 b2
+  rw [mul_one, ← round_eq_rwa _ _ (by omega) (by omega)]
+  obtain ⟨r', E', h', hr, c1, c2, _, hex⟩ := round_big (r * 2 ^ 52) (E + -52) (by omega) (by omega)
+  have hd : 2 ^ ((r * 2 ^ 52).log2 - 52) ∣ r * 2 ^ 52 := by
+    rw [hl]; exact Nat.dvd_mul_left _ _
+  obtain ⟨rfl, rfl⟩ := hex hd
+  rw [hr, rt]
+  have q : r * 2 ^ 52 / 2 ^ ((r * 2 ^ 52).log2 - 52) = r := by
+    rw [hl]; exact Nat.mul_div_cancel _ (by decide)
+  have q2 : E + -52 + (((r * 2 ^ 52).log2 - 52 : Nat) : Int) = E := by rw [hl]; omega
+  rw [unpack_pack_normal _ _ _ h' c1 c2 (by omega) (by omega)]
+  congr 1
+
+theorem intPartU_toFloat (n : Nat) (hn : n < 2 ^ 53) :
+    intPartU (rt (UnpackedFloat.mul Format.binary64 (rt (normalize Format.binary64 (n : Int) 0 .positive)) one)) =
+      some n := by
+  unfold normalize
+  by_cases h0 : n = 0
+  · subst h0
+    have hc : compare ((0 : Nat) : Int) 0 = .eq := by decide
+    simp only [hc, rt_zero]
+    have : UnpackedFloat.mul Format.binary64 (.zero .positive) one = .zero .positive := by rfl
+    rw [this, rt_zero]; rfl
+  · have hpos : 0 < n := Nat.pos_of_ne_zero h0
+    have hc : compare (n : Int) 0 = .gt := by rw [Int.compare_eq_gt]; omega
+    simp only [hc, Int.toNat_natCast]
+    have hL : n.log2 ≤ 52 := by
+      have := (Nat.log2_lt h0).mpr hn; omega
+    obtain ⟨h, hr⟩ := round_small n 0 hpos hL (by omega)
+    obtain ⟨b1, b2⟩ := pow_bounds_small n hpos hL
+    have hin : rt (.finite .positive (n * 2 ^ (52 - n.log2)) (0 - ((52 - n.log2 : Nat) : Int)) h) =
+        .finite .positive (n * 2 ^ (52 - n.log2)) (0 - ((52 - n.log2 : Nat) : Int)) h := by
+      rw [rt, unpack_pack_normal _ _ _ h b1 b2 (by omega) (by omega)]
+    rw [hr, hin, rt_mul_one _ _ h b1 b2 (by omega) (by omega)]
+    simp only [intPartU]
+    rw [floorPow_neg _ (52 - n.log2) _ (by omega), Nat.mul_div_cancel _ (Nat.two_pow_pos _)]
+
+end Aplang.FloatIndex
+
+namespace Aplang.F64
+open Aplang.FloatIndex
+
+/-- **a natural number below `2^53` converts to the float with exactly that value** (what LENGTH returns) -/
+theorem intPart_toFloat (n : Nat) (hn : n < 2 ^ 53) : intPart n.toFloat = some n := by
+  unfold intPart; rw [toFloat_unpack n hn]; exact intPartU_toFloat n hn
+
+end Aplang.F64
